@@ -152,6 +152,7 @@ impl World {
 		}
 		// a restarted node may have lost the record of its last bump (C07-5 compares per incarnation)
 		self.oracle.last_fee.retain(|k, _| k.0 != n);
+		self.oracle.last_bump_rate.retain(|k, _| k.0 != n);
 		let node = &self.nodes[n];
 		let (mgr_bytes, mon_bytes): (Option<Vec<u8>>, Vec<([u8; 32], Vec<u8>)>) = {
 			let mut d = node.disk.lock().unwrap();
